@@ -84,7 +84,17 @@ def check(run: Run) -> None:
         # the pushed map: parameter name -> resolved argument, complete before the push
         mt = push.args[0] if push.args else ("top", "?")
         complete = mt[0] == "comp" and mt[1] == "DictComp"
-        arg_visits = [e for e in evs if e.name == "visit" and e.args and e.args[0][0] in ("subscript", "index", "elem") and e.args[0][1] == ("attr", nodep, "args")]
+        args_t = ("attr", nodep, "args")
+
+        def _is_arg_elem(t):
+            """one of the call's arguments: node.args[i], an element of node.args, or the argument half of zip(params, node.args)"""
+            if t[0] in ("subscript", "index", "elem") and t[1] == args_t:
+                return True
+            if t[0] == "index" and t[1][0] == "elem" and t[1][1][0] == "app" and t[1][1][1] == ("global", "builtins.zip") and isinstance(t[2], int) and t[2] < len(t[1][1][2]):
+                return t[1][1][2][t[2]] == args_t
+            return False
+
+        arg_visits = [e for e in evs if e.name == "visit" and e.args and _is_arg_elem(e.args[0])]
         run.check(len(arg_visits) >= 1, "C05.R3", vc, vc.node, "call arguments are resolved", "the arguments of an inlined call are never visited (helpers called in arguments stay un-inlined and outer substitutions are not applied)")
         for e in arg_visits:
             if e.site is not push.site:
@@ -100,11 +110,23 @@ def check(run: Run) -> None:
             ok_k = key_t[0] == "attr" and key_t[2] == "arg" and contains(key_t, lambda s: s == ("attr", ("attr", ("attr", nodep, "func"), "args"), "args"))
             ok_v = val_t[0] == "visit" and contains(val_t, lambda s: s == ("attr", nodep, "args"))
             same_index = _same_index(key_t, val_t)
+            # .. or the two halves of one zip(<parameters>, <arguments>) element
+            zs = [z for z in _walk(mt) if z[0] == "app" and z[1] == ("global", "builtins.zip") and len(z[2]) == 2]
+            for z in zs:
+                if key_t == ("attr", ("index", ("elem", z), 0), "arg") and val_t == ("visit", ("index", ("elem", z), 1)) and z[2] == (("attr", ("attr", ("attr", nodep, "func"), "args"), "args"), args_t) and len(mt[3]) == 1 and mt[3][0][0] == z and not mt[3][0][1]:
+                    same_index = True
             run.check(ok_k and ok_v and same_index, "C05.R3", vc, at_push, "map binds the i-th parameter name to the visited i-th argument", f"parameter map is {show(mt)[:160]}: parameters and arguments are not paired positionally")
     # visit_Name: innermost first, shadow entries leave the node
     fn = ctx.analysis(vn)
     loops = [n for n in own_nodes(vn) if isinstance(n, ast.For)]
     ok_rev = len(loops) == 1 and isinstance(loops[0].iter, ast.Call) and isinstance(loops[0].iter.func, ast.Name) and loops[0].iter.func.id == "reversed" and strip_sites(fn.term_of(loops[0].iter.args[0], fn.cfg.node_of(loops[0]))) == ("attr", ("param", vn.pos_params[0]), STACK)
+    if not ok_rev and not loops:
+        # the same search written as next((m for m in reversed(self._arg_map_list) if node.id in m), None)
+        for c_ in calls_in(vn):
+            if isinstance(c_.func, ast.Name) and c_.func.id == "next" and c_.args and isinstance(c_.args[0], ast.GeneratorExp) and len(c_.args[0].generators) == 1 and fn.cfg.has_node(c_):
+                it_ = c_.args[0].generators[0].iter
+                if isinstance(it_, ast.Call) and isinstance(it_.func, ast.Name) and it_.func.id == "reversed" and len(it_.args) == 1 and strip_sites(fn.term_of(it_.args[0], fn.cfg.node_of(c_))) == ("attr", ("param", vn.pos_params[0]), STACK):
+                    ok_rev = True
     run.check(ok_rev, "C05.R3", vn, loops[0] if loops else vn.node, "visit_Name searches the maps innermost-first", "helper parameter lookup is not innermost-first: with nested helpers that re-use a parameter name the outer binding wins")
     rt = strip_sites(fn.return_term())
     nn = ("param", vn.pos_params[1])
